@@ -320,12 +320,18 @@ func (s *BooleanSearcher) advanceIfTrailing(ctx *search.Context, number uint64) 
 	}
 
 	if s.shouldSearcher != nil {
-		if s.currShould != nil {
-			ctx.DocumentMatchPool.Put(s.currShould)
-		}
-		s.currShould, err = s.shouldSearcher.Advance(ctx, number)
-		if err != nil {
-			return err
+		// As for mustNotSearcher below: when there is a must searcher the
+		// should cursor is not the one tracked by currentMatch, so it may
+		// already be at or ahead of the requested number. Moving it then
+		// would step over (and lose) the should match on that very document.
+		if s.currShould == nil || s.currShould.Number < number {
+			if s.currShould != nil {
+				ctx.DocumentMatchPool.Put(s.currShould)
+			}
+			s.currShould, err = s.shouldSearcher.Advance(ctx, number)
+			if err != nil {
+				return err
+			}
 		}
 	}
 
